@@ -256,10 +256,13 @@ Definition managed (m : model) (t : atom) : bool :=
 Definition unmanaged_children (m : model) (root : list rchild) : list rchild :=
   filter (fun c => negb (managed m (rtag c))) root.
 
-(* well-formed root: at most one child per tag that save() manages *)
+(* the one hypothesis on the tree that confluence needs: at most one <asset> child of the root
+   (the schema allows exactly one).  With two, library_loc - the index after the LAST <asset> -
+   moves when a library in front of it is removed, so a library created by a later save lands
+   elsewhere than in a run that never failed (Properties/C03.v, C03_two_assets_refuted; the
+   implementation does the same).  Duplicate libraries need no hypothesis: save() removes them. *)
 Definition count_tag (t : atom) (root : list rchild) : nat := length (filter (has_tag t) root).
-Definition wf_root (m : model) (root : list rchild) : Prop :=
-  forall t, managed m t = true -> count_tag t root <= 1.
+Definition single_asset (root : list rchild) : Prop := count_tag a_asset root <= 1.
 (* well-formed library list: distinct tags, none of them asset or scene *)
 Definition wf_libs (m : model) : Prop :=
   NoDup (map ltag (mlibs m)) /\ ~ In a_asset (map ltag (mlibs m)) /\ ~ In a_scene (map ltag (mlibs m)).
